@@ -53,6 +53,7 @@ def run(R):
     R.trusted += [
         "translator harness/cmd/gen_panics (go/ast, syntactic: explicit panic, Must*, Quo/Div/Mod and integer / % with a non-literal divisor, .Sub, coin constructors, unchecked type assertions, non-literal index; static calls followed by name to a fixpoint (also through the expected-keeper interfaces) below abci.go / module.go Begin/EndBlock / proposal handlers); map-of-pointer and nil-result dereferences are NOT listed",
         "the audit reasons pinned in Properties/C06.v (audit_table) are reviewed claims, not theorems; a new site (function, kind or one more of a kind) breaks C06_panic_sites_accounted, and a CHANGED function containing any listed site, audited or covered by a model (fingerprint of its comment/whitespace-normalised declaration, pinned next to the reason; trees with the pending fix patches applied are pinned too) breaks C06_audited_functions_unchanged and triggers the widened search",
+        "verdicts resting on an invariant kept by other modules: gen_panics lists every function that calls a writer method of ANOTHER module (e.g. the x/recovery rotation blocks rewriting gov actors / permission indexes); each is pinned by fingerprint (C06_foreign_writers_unchanged), a new or changed one is a broken obligation",
         "tree-read flags of gen_panics (spend_endblock_guarded, gov_*_quorum_error_panics, withdraw/claim_sub_unchecked, ubi_amount_cast_int64) select the model branch; they are syntactic patterns, validated by the ABCI-level correspondence",
         "harness/cmd/c06 observers: recover() around BeginBlock/DeliverTx/EndBlock/Commit, panic site = first github.com/KiraCore/sekai frame under the panic, message class table in drive.go",
         "no axioms: every theorem of Properties/C06.v is closed under the global context",
